@@ -203,3 +203,24 @@ def _microergs(it, st, args, ctx):
     # starts at 10^6 and grows by max(1, v/2e6) per block: >= 10^6 always; < 2^100 for heights < 10^8 (P-HEIGHT)
     st.assume_fact(z3.And(z3.UGE(v, 1000000), z3.ULT(v, 1 << 100)))
     return v
+
+
+# ---- signatures ----------------------------------------------------------------------------------------------
+
+SIG_VALID = z3.Function('ed25519_valid', B256, B256, B256, z3.BoolSort())  # (public key, message id, signature id)
+
+
+@summary(r'^(tmelcrypt::)?Ed25519PK::verify$')
+def _ed_verify(it, st, args, ctx):
+    pk = deref(it, st, args[0])
+    msg = deref(it, st, args[1])
+    sig = deref(it, st, args[2])
+    msg_id = msg.fields[0] if isinstance(msg, Agg) and msg.ty == 'HashVal' else bytes_id(it, st, msg)
+    sig_id = bytes_id(it, st, sig)
+    st.events.append(('sig_verify', pk.fields[0], msg_id, sig_id))
+    return SIG_VALID(pk.fields[0], msg_id, sig_id)
+
+
+@summary(r'^<(tmelcrypt::)?HashVal as (std::ops::)?Deref>::deref$')
+def _hashval_deref(it, st, args, ctx):
+    return args[0]
